@@ -25,7 +25,7 @@ def make_curve(n_app=300, n_ret=None, depth=1e-6, z0=3e-6,
                tilt=0., drift=0., seed=0, zoff=1.25e-6, baseline=0.,
                lag=0, spikes=0, path="/synthetic/curve.h5", enum=0,
                with_tip=False, extra_meta=None, cls=None, perturb=None,
-               drop_meta=(), turn="linear"):
+               drop_meta=(), turn="linear", ring=0):
     """Return a nanite.Indentation with an approach and a retract segment.
 
     The tip position runs from +z0 (far away) down to -depth (indented) and
@@ -59,6 +59,17 @@ def make_curve(n_app=300, n_ret=None, depth=1e-6, z0=3e-6,
     if spikes:
         idx = rng.integers(int(n_app * .7), n_app, size=spikes)
         f[idx] += 5 * max(noise, 1e-11) * 20
+    if ring:
+        # "ringing" in the indentation part: one sample up, both neighbours
+        # down by a similar amount
+        ncont = int(np.sum(tip_a < 0))
+        amp = 0.02 * float(np.max(np.abs(f[:n_app])) or 1e-9)
+        sgn = 1 if ring > 0 else -1      # (ring < 0: down, neighbours up)
+        for j in range(abs(ring)):
+            i = n_app - ncont + int((j + 1) * ncont / (abs(ring) + 1))
+            f[i] += sgn * amp
+            f[i - 1] -= sgn * 0.95 * amp
+            f[i + 1] -= sgn * 0.95 * amp
     seg = np.concatenate([np.zeros(n_app, dtype=np.uint8),
                           np.ones(n_ret, dtype=np.uint8)])
     if lag:
